@@ -7,6 +7,7 @@ from . import consts as K
 from . import effects as E
 from . import facts as F
 from .report import Report
+from .absint.jobs import run_jobs
 
 A_TOOL = "rustc 1.97.0-nightly MIR at -Zmir-opt-level=0 and rustc's constant evaluator represent the source (driver: /verif/driver)"
 A_TARGET = "target x86_64 (64-bit limbs); the 32-bit-limb cfg alternative never type-checks here"
@@ -275,7 +276,7 @@ def check_C06(tier):
     )
 
 
-def check_C07(tier):
+def check_C07_consts_only(tier):
     rep = Report("C07", tier)
     cl = cfgs(tier)
     fx = F.build_many([(c, "rel") for c in cl])
@@ -390,14 +391,227 @@ def check_C05(tier):
         [A_TOOL, A_TARGET],
     )
 
+# ---------------------------------------------------------------------------
+# E4-based checks
+# ---------------------------------------------------------------------------
+from . import e4props as E4  # noqa: E402
+
+E4_CONFIGS = ["default", "compact", "nostd", "nostd_compact"]     # alloc configurations: see DESIGN (HeapVec not modelled)
+A_E4 = [
+    "A1: every loop runs, and every iterator yields, fewer than 2^62 times (replaces `no usize counter overflow`)",
+    "A3: the summaries of core/std leaves in mlxsa/absint/summaries.py are faithful",
+    "A5: rustc MIR at -Zmir-opt-level=0 with the stated -C debug-assertions / -C overflow-checks represents the source",
+    "modular layer: functions listed in audit/contracts.py are analysed once for every input satisfying the vector invariant and the listed "
+    "argument preconditions; call sites check both",
+    "AUDITED obligations (audit/sites.py) are accepted on the written reason and their machine-checked side condition only",
+]
+
+
+def _rule_of(kind):
+    return "E4:%s must hold on every abstract path (PROVEN by the interval/difference-bound interpreter, or AUDITED with reason)" % kind.split(" ")[0]
+
+
+def _e4_report(rep, pid, results, group_of, fx_for_side, fn_filter=None, floor_per_group=None):
+    grouped, errors = E4.collect(pid, results, group_of, fn_filter)
+    audit = E4.load_audit()
+    side_envs = {g: E4.side_env(fx_for_side[g]) for g in grouped if g in fx_for_side}
+    for g in grouped:
+        if g not in side_envs:
+            side_envs[g] = E4.side_env(next(iter(fx_for_side.values())))
+    per_group, stats, used = E4.to_obs(pid, grouped, audit, side_envs, _rule_of)
+    for g, obs in sorted(per_group.items()):
+        rep.add(g, obs)
+        if floor_per_group:
+            rep.floor("%s: %s obligations" % (g, pid), len(obs), floor_per_group)
+    for job, err in errors:
+        rep.add("errors", [K.Ob("analysis job %s" % (job,), False, err[-800:], "E4:every analysis job must complete")])
+    walls = [r.get("wall", 0) for r in results]
+    notes = {}
+    unmod = {}
+    for r in results:
+        for res in r.get("results", []):
+            for k, v in res["notes"].items():
+                notes[k] = notes.get(k, 0) + v
+            for k, v in res["unmodelled"].items():
+                unmod[k] = unmod.get(k, 0) + v
+    rep.analysed.update({"e4_jobs": [r["job"] for r in results], "e4_job_wall_s": [round(w, 1) for w in walls],
+                         "e4_outcomes": stats, "e4_notes": notes, "e4_unmodelled": unmod,
+                         "audited_sites_used": used})
+    if os.environ.get("MLX_RESIDUAL"):
+        for g, obs in sorted(per_group.items()):
+            for o in obs:
+                if not o.ok:
+                    print("RESIDUAL %s | %s\n      %s" % (g, o.key, o.detail[:300]))
+    return stats
+
+
+def _root_jobs(cfgl, modes_models, roots=("root_f64", "root_f32")):
+    return [{"config": c, "mode": m, "model": mod, "kind": "root", "target": r} for c in cfgl for (m, mod) in modes_models for r in roots]
+
+
+def check_C04(tier):
+    rep = Report("C04", tier)
+    cl = ["default"] if tier == "quick" else E4_CONFIGS
+    fx = F.build_many([(c, "dbg") for c in cl])
+    results = run_jobs(_root_jobs(cl, [("dbg", "valid")]))
+    fxs = {c: fx[(c, "dbg")] for c in cl}
+    _e4_report(rep, "C04", results, lambda j: j["config"], fxs, floor_per_group=150)
+    for c in cl:
+        rep.add(c + " capacity", K.capacity_rules(fxs[c]))
+    rep.analysed["configurations"] = cl
+    rep.note("release builds: every `+ - * <<` that carries an Assert(Overflow) in the debug MIR is the same operator in release; "
+             "a proven Assert is also the proof that it cannot wrap. The alloc configurations (HeapVec over Vec) are not analysed by E4.")
+    return rep.finish(
+        "other",
+        "No panic-capable terminator is reachable from parse_float::<f32|f64> for valid input: the whole monomorphic program (debug-assertions + "
+        "overflow-checks MIR, so every arithmetic operator, index, unwrap and debug_assert! is an explicit obligation) is executed abstractly from "
+        "root_f32/root_f64 with digit bytes in [0x30,0x39], first integer byte in [0x31,0x39], exponent = any i32, lengths below 2^62 (A1). "
+        "Intervals + difference bounds, path-sensitive, loops by widening with equality-constant thresholds and narrowing; the big-integer layer "
+        "is analysed modularly under the vector invariant. Each obligation is PROVEN, or AUDITED (listed with reason and machine-checked side "
+        "condition in audit/sites.py), else the check fails.",
+        A_E4 + [A_TOOL, A_TARGET, "A2: the documented preconditions of parse_float (valid digits, no leading zero in the integer part)"],
+    )
+
+
+def check_C08(tier):
+    rep = Report("C08", tier)
+    cl = ["default"] if tier == "quick" else E4_CONFIGS
+    mm = [("rel", "arbitrary"), ("dbg", "arbitrary")] if tier == "quick" else [("rel", "arbitrary"), ("dbg", "arbitrary")]
+    fx = F.build_many([(c, "rel") for c in cl])
+    results = run_jobs(_root_jobs(cl, mm))
+    fxs = {"%s/%s" % (c, m): fx[(c, "rel")] for c in cl for m, _ in mm}
+    _e4_report(rep, "C08", results, lambda j: "%s/%s" % (j["config"], j["mode"]), fxs, floor_per_group=20)
+    # inventory of unsafe operations (E3): evidence + floor
+    for c in cl:
+        v = E.lib_view(fx[(c, "rel")])
+        inv = E.unsafe_inventory(v)
+        names = sorted(set(E.nz(x[2]) for x in inv if x[0] == "call"))
+        rep.analysed.setdefault("unsafe_inventory", {})[c] = {"sites": len(inv), "unsafe_callees": names}
+        rep.floor("%s: unsafe operation sites in the library" % c, len(inv), 25)
+        hd = [s for s in v.structs if s["has_drop"]]
+        rep.add(c + " drop", [K.Ob("no user Drop impl touches raw memory", not hd, "types with Drop: %s" % [s["path"] for s in hd],
+                                   "R08.3:panics unwind through no user Drop (StackVec has none)")])
+    rep.analysed["configurations"] = cl
+    rep.note("Stacked-Borrows observation (writes through as_mut_ptr() beyond the reborrowed length) is documented in DESIGN 5.8, not alarmed")
+    return rep.finish(
+        "other",
+        "Every unsafe operation reachable from parse_float::<f32|f64> is within bounds for arbitrary bytes: abstract execution of the whole "
+        "monomorphic program with bytes in [0,255], any i32 exponent, lengths below 2^62, in release MIR (wrapping arithmetic, no debug asserts) and "
+        "in debug MIR: get_unchecked index < table length at every call site, raw writes/copies inside [0, capacity), raw reads and "
+        "from_raw_parts inside the initialised prefix, pointer offsets in bounds; the vector invariant is inductive over the modularly analysed "
+        "big-integer layer. Panics are allowed exits in this model.",
+        A_E4 + [A_TOOL, A_TARGET],
+    )
+
+
+def _stackvec_entries(f):
+    out = []
+    for b in f.lib["bodies"]:
+        d = b.get("dpath", "")
+        if b["kind"] == "Closure" or b["unsafe"]:
+            continue
+        if d.startswith("minimal_lexical::stackvec::") or d in ("minimal_lexical::bigint::normalize", "minimal_lexical::bigint::shl_limbs",
+                                                                 "minimal_lexical::bigint::shl_bits", "minimal_lexical::bigint::shl",
+                                                                 "minimal_lexical::bigint::small_add_from", "minimal_lexical::bigint::small_mul",
+                                                                 "minimal_lexical::bigint::large_add_from", "minimal_lexical::bigint::long_mul",
+                                                                 "minimal_lexical::bigint::large_mul", "minimal_lexical::bigint::pow",
+                                                                 "minimal_lexical::bigint::from_u64"):
+            out.append(d)
+    return sorted(set(out))
+
+
+def check_C13(tier):
+    rep = Report("C13", tier)
+    cl = ["default"] if tier == "quick" else ["default", "compact", "nostd", "nostd_compact"]
+    modes = [("dbg", "arbitrary"), ("rel", "arbitrary")]
+    fx = F.build_many([(c, "rel") for c in cl])
+    jobs = []
+    for c in cl:
+        for d in _stackvec_entries(fx[(c, "rel")]):
+            for m, mod in modes:
+                jobs.append({"config": c, "mode": m, "model": mod, "kind": "fn", "target": d})
+    results = run_jobs(jobs)
+    # entries without a monomorphic instance are reported, not failed: nothing in the build can call them
+    missing = sorted(set(r["job"]["target"] for r in results if "error" in r and "no instance" in r["error"]))
+    results2 = [r for r in results if not ("error" in r and "no instance" in r["error"])]
+    fxs = {"%s/%s" % (c, m): fx[(c, "rel")] for c in cl for m, _ in modes}
+    _e4_report(rep, "C13", results2, lambda j: "%s/%s" % (j["config"], j["mode"]), fxs, floor_per_group=30)
+    rep.analysed["entries_without_instance"] = missing
+    # encapsulation (E1/E3)
+    for c in cl:
+        v = E.lib_view(fx[(c, "rel")])
+        st = {x["path"]: x for x in v.structs}
+        sv = st.get("stackvec::StackVec")
+        obs = []
+        if sv is None:
+            obs.append(K.Ob("StackVec struct present", False, "no struct stackvec::StackVec", "R13.1"))
+        else:
+            for fld in sv["fields"]:
+                obs.append(K.Ob("field StackVec.%s is private to its module" % fld["name"], fld["vis"].startswith("Restricted"), fld["vis"],
+                                "R13.1:the representation (data, length) is not visible outside module stackvec, so only the analysed writers can break the invariant"))
+            wr = E.field_writers(v, "stackvec::StackVec")
+            outside = sorted(k for k in wr if not k.startswith("stackvec::"))
+            obs.append(K.Ob("direct writers of StackVec fields live in module stackvec", not outside, "writers: %s" % sorted(wr),
+                            "R13.1:every function assigning data/length directly is a method of StackVec"))
+        rep.add(c + " encapsulation", obs)
+    rep.analysed["configurations"] = cl
+    rep.analysed["entry_points"] = sorted(set(j["target"] for j in jobs))
+    rep.note("NOT decided: element-wise equality with a reference sequence, and that compare/eq order like the stored integers. "
+             "HeapVec delegates to Vec (its own invariant); not analysed")
+    return rep.finish(
+        "other",
+        "Representation invariant INV(v) = (length <= capacity and slots [0, length) initialised) is inductive over the whole safe API: every "
+        "non-unsafe function of module stackvec and every friend that writes through vector pointers (bigint::normalize/shl_bits/shl_limbs/shl/"
+        "small_mul/small_add_from/large_add_from/long_mul/large_mul/pow/from_u64) is analysed standalone from EVERY state satisfying INV with all other "
+        "arguments unconstrained (preconditions of audit/contracts.py only), in debug and release MIR: all raw accesses in bounds, all raw reads "
+        "below the initialised prefix, slices expose exactly [0, length), INV holds at every exit. Field privacy (from tcx.visibility) closes the "
+        "induction over histories.",
+        A_E4 + [A_TOOL, A_TARGET],
+    )
+
+
+EXP_FNS = ("minimal_lexical::parse::", "minimal_lexical::slow::slow", "minimal_lexical::slow::scientific_exponent", "minimal_lexical::number::")
+
+
+def check_C07(tier):
+    rep = Report("C07", tier)
+    cl = ["default"] if tier == "quick" else E4_CONFIGS
+    fx = F.build_many([(c, "rel") for c in cl])
+    for cfg in cl:
+        f = fx[(cfg, "rel")]
+        obs = []
+        for fty in ("f32", "f64"):
+            obs += K.cutoff_rules(f, fty)
+        rep.floor("%s: cut-off rules" % cfg, len(obs), 8)
+        rep.add(cfg + " cut-offs", obs)
+    mm = [("dbg", "valid"), ("rel", "valid")]
+    results = run_jobs(_root_jobs(cl, mm))
+    fxs = {"%s/%s" % (c, m): fx[(c, "rel")] for c in cl for m, _ in mm}
+    _e4_report(rep, "C07", results, lambda j: "%s/%s" % (j["config"], j["mode"]), fxs,
+               fn_filter=lambda o: o["fn"].startswith(EXP_FNS), floor_per_group=10)
+    rep.analysed["configurations"] = cl
+    rep.analysed["exponent_bookkeeping_functions"] = list(EXP_FNS)
+    rep.note("NOT decided: correct rounding of subnormals and the exact overflow threshold")
+    return rep.finish(
+        "other",
+        "(1) Cut-off rules: the decimal-exponent early-outs of both moderate stages imply the value they return. (2) No wrap-around in exponent "
+        "bookkeeping: in the functions that compute the decimal exponent (parse::*, number::*, slow::slow, slow::scientific_exponent) every narrowing "
+        "integer cast is value-preserving and every non-wrapping_* `+ - *` cannot overflow, for every valid input with lengths below 2^62 and any i32 "
+        "exponent, in debug and release MIR.",
+        A_E4 + [A_TOOL, A_TARGET],
+    )
+
 CHECKS = {
     "C01": check_C01,
     "C02": check_C02,
+    "C04": check_C04,
     "C05": check_C05,
     "C06": check_C06,
     "C07": check_C07,
+    "C08": check_C08,
     "C11": check_C11,
     "C12": check_C12,
+    "C13": check_C13,
     "C14": check_C14,
     "C17": check_C17,
     "C18": check_C18,
